@@ -174,9 +174,9 @@ int main(void)
     VASSUME(s != root && need != 0);
     int p = spec_parent(s);
     int in_class = (p != root) && (need & ~need_of(p));
-#if defined(KF_EXCLUDE_C13_CHAIN_RELAY_DIFFERING_DESTS)
+#if defined(KF_EXCLUDE_C13_CHAIN_RELAY_DIFFERING_DESTS) || defined(KF_EXCLUDE_C05_CHAIN_RELAY_DIFFERING_DESTS)
     VASSUME(!in_class);
-#elif defined(KF_ONLY_C13_CHAIN_RELAY_DIFFERING_DESTS)
+#elif defined(KF_ONLY_C13_CHAIN_RELAY_DIFFERING_DESTS) || defined(KF_ONLY_C05_CHAIN_RELAY_DIFFERING_DESTS)
     VASSUME(in_class);
 #endif
     VASSERTM(p >= 0 && p < NR && p != s && (p == root || need_of(p) != 0), "the expected sender is the root or a destination rank");
@@ -187,7 +187,9 @@ int main(void)
     VASSERTM(tx_payload_to_s == need, "the activation carries exactly the outputs the destination rank consumes");
 #if TOPO != 0
     if (p != root) VWITNESS("forwarded by a non-root rank");
+#if !defined(RELAY_STAR_FALLBACK)
     if (p != root && need_of(p) != need) VWITNESS("forwarded by a non-root rank whose destination sets differ from the receiver's");
+#endif
 #endif
     if (p == root && need != pmask) VWITNESS("sent by the root, differing destination sets");
 #else
